@@ -45,6 +45,17 @@ const abortMark = "↯ "
 
 func poisons(why string) bool { return strings.HasPrefix(why, abortMark) }
 
+// effectFree: library calls whose effects cannot matter to a model (printing, logging, locking in
+// a sequential interpretation, scheduler hints).
+func effectFree(why string) bool {
+	for _, p := range []string{"call to fmt.Print", "call to fmt.Fprint", "call to log.", "call to (*log.Logger).", "call to (*sync.Mutex).", "call to (*sync.RWMutex).", "call to runtime.", "call to (*sync.WaitGroup)."} {
+		if strings.HasPrefix(why, p) {
+			return true
+		}
+	}
+	return false
+}
+
 type oStruct struct {
 	typ    types.Type
 	fields map[string]oval
@@ -459,6 +470,11 @@ func (fr *oFrame) stmt(s ast.Stmt) oCtl {
 		// a repository function called for its effects that could not be interpreted: its effects
 		// are unknown (calls that leave the repository — logging and the like — are not followed)
 		for _, v := range vs {
+			if t, isTop := v.(oTop); isTop && !poisons(t.why) && strings.Contains(t.why, "(outside the repo)") && !effectFree(t.why) {
+				// a call outside the repository made for its effects (sort.Slice, copy-like helpers,
+				// atomic stores …) that no model describes: what it did to its arguments is unknown
+				return fr.abort("%s", t.why)
+			}
 			if t, isTop := v.(oTop); isTop && poisons(t.why) {
 				if os.Getenv("VERIF_TRACE") != "" {
 					fmt.Fprintf(os.Stderr, "TRACE discarded ⊤ at %s: %s\n", fr.it.p.Position(ce.Pos()), t.why)
@@ -1298,6 +1314,15 @@ func (fr *oFrame) eval(e ast.Expr) oval {
 			if i, ok := v.(oInt); ok {
 				return -i
 			}
+			// the two infinities are each other's negation in every domain
+			if f, ok := v.(oFloat); ok {
+				if f.r >= oInf {
+					return oFloat{-oInf}
+				}
+				if f.r <= -oInf {
+					return oFloat{oInf}
+				}
+			}
 			if fr.it.symbolic {
 				if p, ok := symOf(v); ok {
 					return symVal(p.scale(big.NewRat(-1, 1)))
@@ -2007,6 +2032,9 @@ func (fr *oFrame) call(call *ast.CallExpr) []oval {
 		}
 	}
 	if fr.it.p.Decl(f) == nil {
+		if out, ok := fr.it.coreLib(f, recv, args); ok {
+			return out
+		}
 		return one(oTop{"call to " + f.FullName() + " (outside the repo)"})
 	}
 	if sig.Variadic() && !call.Ellipsis.IsValid() {
@@ -2150,6 +2178,35 @@ func fget(s *oStruct, path ...string) (int64, bool) {
 }
 
 type oBox struct{ minx, miny, maxx, maxy int64 }
+
+// hasTop: a value holds something the interpreter could not compute (so it can neither be
+// confirmed nor refuted against a specification).
+func hasTop(v oval) bool {
+	switch x := v.(type) {
+	case oTop:
+		return true
+	case *oStruct:
+		if x == nil {
+			return false
+		}
+		for _, f := range x.fields {
+			if hasTop(f) {
+				return true
+			}
+		}
+	case oPtr:
+		return x.s != nil && hasTop(x.s)
+	case oIface:
+		return x.dyn != nil && hasTop(x.dyn)
+	case oSlice:
+		for i := 0; i < x.length() && i < 64; i++ {
+			if hasTop(x.at(i)) {
+				return true
+			}
+		}
+	}
+	return false
+}
 
 func boxOf(v oval) (oBox, bool) {
 	var s *oStruct
@@ -2663,4 +2720,61 @@ func wrapInt(v oval, t types.Type) oval {
 		return oInt(int64(int32(n)))
 	}
 	return v
+}
+
+// coreLib: the few standard-library functions every model needs the same way.  sort.Slice and
+// sort.SliceStable order the slice by calling the interpreted less function (insertion sort:
+// stable, which both promise or allow); sort.Sort and sort.Stable go through the value's own
+// Len/Less/Swap.
+func (it *oInterp) coreLib(f *types.Func, recv oval, args []oval) ([]oval, bool) {
+	if f.Pkg() == nil || f.Pkg().Path() != "sort" {
+		return nil, false
+	}
+	switch f.Name() {
+	case "Sort", "Stable":
+		if len(args) == 1 {
+			if why := hostSort(it, args[0]); why == "" {
+				return nil, true
+			}
+		}
+	case "Slice", "SliceStable":
+		if len(args) != 2 {
+			return nil, false
+		}
+		v := args[0]
+		if iv, ok := v.(oIface); ok {
+			v = iv.dyn
+		}
+		sl, ok := v.(oSlice)
+		if !ok {
+			if _, isNil := v.(oNil); isNil {
+				return nil, true
+			}
+			return nil, false
+		}
+		n := sl.length()
+		if n > it.loopLimit() {
+			return nil, false
+		}
+		for i := 1; i < n; i++ {
+			for j := i; j > 0; j-- {
+				res, why := it.CallValue(args[1], []oval{oInt(j), oInt(j - 1)})
+				if why != "" || len(res) != 1 {
+					return []oval{}, false
+				}
+				b, ok := res[0].(oBool)
+				if !ok {
+					return nil, false
+				}
+				if !bool(b) {
+					break
+				}
+				x, y := sl.at(j), sl.at(j-1)
+				sl.set(j, y)
+				sl.set(j-1, x)
+			}
+		}
+		return nil, true
+	}
+	return nil, false
 }
